@@ -27,9 +27,13 @@ LEVEL_TEXT = ("Proved, for every registry and integer range, relative to the spe
               "any number spelling (fraction, exponent with or without sign), operators / keywords / parentheses / nested filters / function calls with the lexer's three stacks threaded through the induction (Proofs/LexComplete.v, LexCompleteF.v: forward "
               "simulation of the state machine with maximal-munch and FOLLOW facts) and nothing else compiles; C03_accepts_only_spellings and C04_sound - the converse: "
               "compile accepts only spellings, and every spelling is derivable from the ABNF; C05_complete_tokens / C03_tokens_complete - the parser on every derivable token sequence; C03_canonical_text. "
-              "NOT proved (partial): that every valid string of the ABNF is a spelling in that sense (ABNF derivations -> token-grammar derivations); "
+              "C03_complete_abnf_no_filter - the headline with nothing but the ABNF, compile() and the integer range in it, for strings without '?': every such string of the grammar compiles wherever the range contains its integers "
+              "(Proofs/AbnfSpell.v inverts ABNF derivations into token-grammar derivations and spellings); C03_abnf_lexical_rules - every alternative of every lexical rule (blank space, non-ASCII name shorthand, int, every number "
+              "spelling, function names, both string kinds with every escape form) is a token text the spellings range over and converts without error. "
+              "NOT proved (partial): the ABNF -> spelling inversion for filter selectors (logical-expr and below); there validity is a property of the derivation, not of the syntax tree (a parenthesised function argument is "
+              "a logical expression), which is what the typed token grammar QT captures; "
               "every generated valid query, rendered in every lexical form, must compile to the generating structure.")
-LEVEL_NOTE = "Partial only in the link ABNF -> spellings. Trusted: Coq kernel, grammar transcription, the spelling relation (Proofs/LexSpell.v astep) as a reading of where the ABNF allows blanks, renderer (self-checked), extraction and driver."
+LEVEL_NOTE = "Partial only in the link ABNF -> spellings for filter selectors. Trusted: Coq kernel, grammar transcription, the spelling relation (Proofs/LexSpell.v astep) as a reading of where the ABNF allows blanks, renderer (self-checked), extraction and driver."
 
 
 def nest(rng, depth):
